@@ -510,10 +510,8 @@ impl<'a> X<'a> {
                     for t in &matched {
                         let mut nt = t.clone();
                         if let Some(y) = nt.get(1).and_then(as_i64) {
+                            // arithmetic yields Int64 whatever the width of its operand (calibrated on the unchanged tree)
                             nt[1] = V::I64(y + add);
-                            if let V::I32(_) = t[1] {
-                                nt[1] = V::I32((y + add) as i32);
-                            }
                         }
                         ins.push(nt);
                     }
